@@ -6,7 +6,7 @@ import re
 from framework import REPO, ROOT, LEAN
 
 TIE = ["Nsq.Tie.LookupSync"]
-PROPS = ["Nsq.Props.C16", "Nsq.Props.C16Ticks"]
+PROPS = ["Nsq.Props.C16", "Nsq.Props.C16Ticks", "Nsq.Props.C16More"]
 KEY_F3 = "negative-length-panic"
 KEY_STALE = "deleted-object-still-registered"
 KEY_NAMES = "precreate-unvalidated-channel-name"
@@ -178,16 +178,18 @@ def run(ctx):
         "net (dial/read/write deadlines of 1 s), go-nsq command encoding, encoding/json of the IDENTIFY reply",
         "translator tools/go2lean kinds `effseq`/`stmts` (order of effects in connectCallback, Command, lookupLoop, "
         "GetTopic; guards of readResponseBounded)",
-        "harness harness/e6/sync_test.go: real NSQD with the verif heartbeat override (100 ms), two scripted fake "
-        "lookupds (real wire protocol, fault injection), one real in-process nsqlookupd restarted on its ports",
+        "harness harness/e6/{sync,more}_test.go: real NSQD with the verif heartbeat override (100 ms), one to three scripted fake "
+        "lookupds (real wire protocol, fault injection), one real nsqlookupd (subprocess) restarted on its ports",
     ]
     ctx.assumptions += [
-        "converges holds for every schedule (no order hypothesis) on the tree with F14 (connectCallback skips exiting "
-        "objects) and F15 (REGISTER/UNREGISTER from the current state of the name); without either it is false "
+        "converges holds for every schedule (no order hypothesis) on the tree with F14 and F15; without either it is false "
         "(converges_false_without_F14 / _F15)",
-        "'within a few heartbeat intervals' is wall-clock: measured by the harness (heartbeat 100 ms; bound "
-        "5 heartbeats + 2.5 s of dial/read deadlines), not proved",
-        "a stalling lookupd delays lookupLoop by the 1 s deadlines per command (measured, not proved)",
+        "converges_with_rejections / no_injection / 'a round trip takes at most 1 s' are about the tree WITH the proposed fixes F36 / F35 / F39; on the "
+        "current tree the clauses are false (converges_false_without_F36, no_injection_false_without_F35, open findings, replayed on every run)",
+        "precreate_partial: a lookupd is asked for a new topic's channels only after an IDENTIFY to it has succeeded (precreate_full_false)",
+        "'within a few heartbeat intervals' in wall-clock terms, 'does not stop publishing/delivering' and 'receive the very first message' are "
+        "measured / tested by the harness, not proved",
+        "nsqlookupd learns of a closed connection (FIN/RST delivered); a silent partition leaves a stale session until the inactivity timeout (C14)",
     ]
     ctx.rule = ("correspondence: (a) readResponseBounded on generated byte streams (valid, short, oversize, negative "
                 "length prefixes) vs the model; (b) generated scripts of topic/channel churn interleaved with lookupd "
@@ -195,7 +197,9 @@ def run(ctx):
                 "fake lookupds and 1 real nsqlookupd: at every `settle` the registrations each lookupd holds for this "
                 "nsqd are compared with the model's and (when all are healthy) with nsqd's own maps; a case = one "
                 "script line + implementation answer; liveness/publish/deliver probe during every fault; hostile "
-                "length prefixes end-to-end in a subprocess; channel pre-creation with first-message delivery")
+                "length prefixes end-to-end in a subprocess; channel pre-creation with first-message delivery: failing "
+                "HTTP sides, which lookupds are asked (identified / TCP down / never identified), hostile channel names, "
+                "an endless answer; replays of the known / fixed findings (refused REGISTER, drip-fed reply, double deletion)")
     gen_ok, _ = ctx.gen("e6_facts")
     if not gen_ok:
         try:
@@ -210,7 +214,7 @@ def run(ctx):
         ctx.leanchecker(PROPS)
     corr_broken = []
     ctx.build_driver("e6")
-    binp = ctx.go_test_binary("nsqd", ["e6/sync_test.go", "e6/more_test.go"], "e6")
+    binp = ctx.go_test_binary("nsqd", ["e6/sync_test.go", "e6/more_test.go", "e6/drive_test.go"], "e6")
     if not binp:
         ctx.broken_ties.append("harness e6/sync_test.go does not compile against the current tree")
         corr_broken.append("harness build")
@@ -238,6 +242,27 @@ def run(ctx):
                 corr_broken.append("correspondence readresp")
                 if a == "panic":
                     ctx.violation(KEY_F3, "readResponseBounded panics (makeslice: len out of range) on `%s`" % ops[idx],
+                                  "op: %s\nimpl: %s\nmodel: %s\n" % (ops[idx], a, b))
+            ctx.add_sample({"op": ops[0], "impl": impl[0]})
+        # (a2) the real lookupPeer.Command + connectCallback driven one Command at a time against a scripted server that
+        # fails a chosen interaction, vs the interaction-level model fineCommand (audit C33)
+        rc, out, od = run_stream(ctx, binp, "TestVerifE6PeerDrive", "drive", {"VERIF_N": ctx.budget(300, 4000)}, 300)
+        res = diff_stream(ctx, od, "drive", "drive")
+        oracle_lines(ctx, out, "drive")
+        if rc != 0 or not res:
+            ctx.log("drive harness failed rc=%s\n%s" % (rc, out[-1500:]))
+            corr_broken.append("drive harness exit %s" % rc)
+        else:
+            ops, impl, model = res
+            for o, i in zip(ops, impl):
+                ctx.count_case(o + "|" + i, nontrivial=True)
+            for idx, a, b in ctx.diff_lines(impl, model, "drive"):
+                corr_broken.append("correspondence drive (lookupPeer.Command vs fineCommand)")
+                # the property on the implementation's answer: a peer that stays `connected` although the lookupd has
+                # dropped the session is not re-registered by the next Command (only after that one has failed as well)
+                if a.startswith("conn none") and "cmd=nil" not in ops[idx]:
+                    ctx.violation("peer-connected-without-session", "lookupPeer.Command left lp.state connected although the "
+                                  "round trip failed and the lookupd holds no session: `%s`" % ops[idx],
                                   "op: %s\nimpl: %s\nmodel: %s\n" % (ops[idx], a, b))
             ctx.add_sample({"op": ops[0], "impl": impl[0]})
         # (b) hostile replies end to end (subprocess: a panic kills the process)
